@@ -41,7 +41,6 @@ theorem requirements_literal (pom : Pom) (h : ∀ d ∈ pom.deps, literal d.ver)
 
 structure LiteralCase (pom : Pom) (u : Upd) (d : Dep) : Prop where
   lit : ∀ x ∈ pom.deps, literal x.ver
-  nows : ∀ x ∈ pom.deps, x.wsKey = false
   keys : (pom.deps.map (·.key)).Nodup
   mem : d ∈ pom.deps
   key : d.key = u.key
@@ -100,8 +99,7 @@ theorem C13_pom_literal_roundtrip_aux (pom : Pom) (u : Upd) (d : Dep) (c : Liter
     · apply List.map_congr_left
       intro x hx
       unfold applyDep
-      simp only [c.nows x hx, Bool.false_eq_true, if_false, List.reverse_cons, List.reverse_nil, List.nil_append,
-        List.find?]
+      simp only [List.reverse_cons, List.reverse_nil, List.nil_append, List.find?]
       by_cases hxd : x = d
       · subst hxd; simp
       · have : ¬ (d.origin = x.origin ∧ d.key = x.key) := by
